@@ -8,3 +8,7 @@ import Anytype.Generated.WriteSet
 import Anytype.Generated.Api
 import Anytype.Generated.ParserGen
 import Anytype.Lemmas.ParserGenEq
+import Anytype.Generated.ObjectGen
+import Anytype.Lemmas.ObjectGenEq
+import Anytype.Generated.TreeFormGen
+import Anytype.Lemmas.TreeFormGenEq
